@@ -26,6 +26,13 @@ def reference(stations, horizon):
             cap.append(1)
             svc.append(F(s['ct']))
     budget = stations[0].get('budget')
+    # top-ups of a finite budget: [(T, m)]: m more parts may be supplied from instant T on
+    release = []
+    if budget is not None:
+        release = [F(0)] * budget
+        for T, m in sorted(stations[0].get('topups') or []):
+            release += [F(T)] * m
+        budget = len(release)
     # D[j][k] = departure time of part k (1-based) from station j; the sink's "departure" is
     # the instant its slot is free again
     D = [[] for _ in range(n)]
@@ -36,6 +43,8 @@ def reference(stations, horizon):
         for j in range(n):
             if j == 0:
                 ready = (D[0][k - 2] if k >= 2 else F(0)) + svc[0]
+                if release and release[k - 1] > ready:
+                    ready = release[k - 1]      # made, but not covered by the budget before this instant
             else:
                 ready = row[j - 1] + svc[j]
             t = ready
